@@ -132,6 +132,9 @@ _ITEM = st.one_of(
     st.tuples(st.just('l'), st.integers(0, 50)),
 ).map(list)
 _TI = st.integers(0, len(_T) - 1)
+# timed gets also with a timeout that has elapsed before the call begins
+_TG = _T + [0.0, 0.0, -0.5]
+_TGI = st.integers(0, len(_TG) - 1)
 _OP = st.one_of(
     st.tuples(st.just('pn'), _ITEM),
     st.tuples(st.just('pn'), _ITEM),
@@ -139,7 +142,7 @@ _OP = st.one_of(
     st.tuples(st.just('pt'), _ITEM, _TI),
     st.tuples(st.just('pb'), _ITEM),
     st.tuples(st.just('g'), _TI),
-    st.tuples(st.just('g'), _TI),
+    st.tuples(st.just('g'), _TGI),
     st.tuples(st.just('gb')),
     st.tuples(st.just('gn')),
     st.tuples(st.just('td')),
@@ -322,11 +325,13 @@ def execute_seq(case):
             elif kind == 'SQ':
                 labels.add('skipped')
             else:
-                t = _T[int(op[1])]
+                t = _TG[int(op[1])]
                 if st_['budget'] < t:
                     labels.add('skipped')
                     return
-                st_['budget'] -= t
+                st_['budget'] -= max(t, 0)
+                if t <= 0:
+                    labels.add('get_timeout_elapsed_at_call')
                 t0 = time.monotonic()
                 try:
                     got = q.get(timeout=t)
